@@ -58,6 +58,12 @@ DEGENERATE = ["ga3([1, 2, 3, 4])", "ga3([1])", "ga3([])", "ga3(vl)", "ga3(vll)",
               "toString(vfn)", "toString(vc)", "toInt(vl)", "toFloat(vm)", "typeOf(vcc)", "kindOf(nil)", "println", "x = println\nx = print", "load(\"/nonexistent/file\")", "load(1)", "defined(1)", "defined()"]
 
 
+# limits of the reflect package reached by plain source text: many parameters, wide struct types as element / key / channel types
+def _wide(n): return "struct { " + ", ".join("F%d string" % i for i in range(n)) + " }"
+DEGENERATE += ["f = func(" + ", ".join("a%d" % i for i in range(n)) + ") { return 1 }\n1" for n in (5, 64, 126, 127, 128, 130, 300)]
+DEGENERATE += ["func f(" + ", ".join("a%d" % i for i in range(n)) + ", r...) { return 1 }\n1" for n in (126, 127, 130)]
+DEGENERATE += [t % _wide(n) for n in (100, 4095, 4096, 4100) for t in ("make(chan %s)", "make(chan %s, 1)", "make([]%s, 1)", "make(map[string]%s)", "make(map[%s]string)", "make(%s)", "x = new(%s)\n1", "make(chan []%s)", "make(chan *%s)")]
+
 # script goroutines that share VARIABLES, modules and functions (never a container): the interpreter's own tables are the only shared state
 CONC = [
     'z = 0\nmodule m {\n a = 1\n}\ndone = make(chan int64)\ngo func() {\n for i = 0; i < 30000; i++ {\n  z = i\n }\n done <- 1\n}()\nfor j = 0; j < 3000; j++ {\n x = m\n}\n<-done',
